@@ -272,6 +272,22 @@ def run_shard(shard, rec):
     d = layout.pinned()["types"][tn]
     T = type_by_name(tn)
     rng = random.Random(f"{shard.get('seed', 0)}:C17:{tn}")
+    # first thing in this fresh interpreter, before attributes(), str() or the printer have touched the class: accessors of
+    # words built from the pinned masks (what code does that decodes a word and reads a field, without printing it)
+    w0 = 8 * d["width"]
+    for v in sorted({(1 << w0) - 1} | set(d["bits"].values()) | {m & -m for m in d["bits"].values() if m > 0}):
+        if not 0 <= v < (1 << w0):
+            continue
+        x = T(v)
+        for name, mask in d["bits"].items():
+            if mask <= 0:
+                continue
+            got = getattr(x, name)
+            exp = (v & mask) >> ctz(mask)
+            rec.count("early_accessor_reads")
+            if got != exp:
+                rec.violation("accessor", f"{tn}.{name}:early", f"{tn}({v:#x}).{name} = {got!r} when read before anything else touched the type in this process, expected {exp:#x} (mask {mask:#x})", dict(type=tn, value=v, early=True))
+                break
     live = check_masks(tn, T, d, rec)
     vals, exhaustive = values_for(d, rng, shard.get("tier", "quick"))
     for v in vals:
@@ -295,6 +311,8 @@ def finish(m, tier):
         inc.append("the mixed-type sequence was not run")
     if not m["counters"].get("route_named-masks") or not m["counters"].get("route_typed-word"):
         inc.append("no word was built from named masks / from a typed word")
+    if not m["counters"].get("early_accessor_reads"):
+        inc.append("no accessor was read before the type was otherwise used")
     if not m["counters"].get("context_words"):
         inc.append("no attribute word was checked inside a structure or message")
     if not m["counters"].get("rows_checked"):
